@@ -383,7 +383,9 @@ class SQLiteProvider(DBAPIProvider):
                     sql = 'PRAGMA foreign_keys = false'
                     if core.local.debug: log_orm(sql)
                     cursor.execute(sql)
-                cache.saved_fk_state = bool(fk)
+                # a ddl session can run several transactions (commit() in the middle): the state to restore is
+                # the one found the first time, later calls find the foreign keys switched off by this session
+                if cache.saved_fk_state is None: cache.saved_fk_state = bool(fk)
                 assert cache.immediate
 
             if cache.immediate:
